@@ -61,6 +61,14 @@ def sh(cmd, cwd=None, env=None, timeout=None, input=None):
 
 def scratch():
     d = os.path.join(BUILD, "run-%d" % os.getpid())
+    if not os.path.isdir(d):
+        # leftovers of runs that were killed (a timeout, an interrupted matrix): remove those whose process is gone
+        try:
+            for name in os.listdir(BUILD):
+                if name.startswith("run-") and name[4:].isdigit() and not os.path.exists("/proc/%s" % name[4:]):
+                    shutil.rmtree(os.path.join(BUILD, name), ignore_errors=True)
+        except OSError:
+            pass
     os.makedirs(d, exist_ok=True)
     return d
 
